@@ -14,6 +14,7 @@ import (
 	"sort"
 	"strings"
 
+	"github.com/pentops/j5/gen/j5/ext/v1/ext_j5pb"
 	"github.com/pentops/j5/gen/j5/list/v1/list_j5pb"
 	"github.com/pentops/j5/gen/j5/schema/v1/schema_j5pb"
 	"github.com/pentops/j5/lib/j5schema"
@@ -893,9 +894,19 @@ func runC04(cfg *vh.Config) error {
 			var vals []string
 			for i := 0; i < ed.Values().Len(); i++ {
 				v := ed.Values().Get(i)
-				vals = append(vals, fmt.Sprintf("(%s, (%d)%%Z, %s)", vh.BytesTerm(string(v.Name())), v.Number(), vh.BytesTerm(declaredComment(v))))
+				var vinfo map[string]string
+				if x, ok := proto.GetExtension(v.Options(), ext_j5pb.E_EnumValue).(*ext_j5pb.EnumValueOptions); ok && x != nil {
+					vinfo = x.Info
+				}
+				vals = append(vals, fmt.Sprintf("(%s, (%d)%%Z, %s, %s)", vh.BytesTerm(string(v.Name())), v.Number(), vh.BytesTerm(declaredComment(v)), infoTerm(vinfo)))
 			}
-			obsEnum := fmt.Sprintf("(EO %s [%s])", vh.BytesTerm(declaredComment(ed)), strings.Join(vals, ";"))
+			var efields [][3]string
+			if x, ok := proto.GetExtension(ed.Options(), ext_j5pb.E_Enum).(*ext_j5pb.EnumOptions); ok && x != nil {
+				for _, f := range x.InfoFields {
+					efields = append(efields, [3]string{f.Name, f.Label, f.Description})
+				}
+			}
+			obsEnum := fmt.Sprintf("(EO %s [%s] %s)", vh.BytesTerm(declaredComment(ed)), strings.Join(vals, ";"), infoFieldsTerm(efields))
 			reflEnum := `(Err "reflect")`
 			if mem.panic != nil {
 				reflEnum = `(Panic "reflect")`
@@ -903,10 +914,14 @@ func runC04(cfg *vh.Config) error {
 			if mem.enum != nil {
 				var ros []string
 				for _, o := range mem.enum.Options {
-					ros = append(ros, fmt.Sprintf("(%s, (%d)%%Z, %s)", vh.BytesTerm(o.Name), o.Number, vh.BytesTerm(o.Description)))
+					ros = append(ros, fmt.Sprintf("(%s, (%d)%%Z, %s, %s)", vh.BytesTerm(o.Name), o.Number, vh.BytesTerm(o.Description), infoTerm(o.Info)))
 				}
-				reflEnum = fmt.Sprintf("(Ok (RE %s %s [%s]))", vh.BytesTerm(mem.enum.Description), vh.BytesTerm(mem.enum.Prefix), strings.Join(ros, ";"))
-				if mem.enum.Name != env.Name || len(mem.enum.Info) != 0 || optionInfo(mem.enum) {
+				var rfields [][3]string
+				for _, f := range mem.enum.Info {
+					rfields = append(rfields, [3]string{f.Name, f.Label, f.Description})
+				}
+				reflEnum = fmt.Sprintf("(Ok (RE %s %s [%s] %s))", vh.BytesTerm(mem.enum.Description), vh.BytesTerm(mem.enum.Prefix), strings.Join(ros, ";"), infoFieldsTerm(rfields))
+				if mem.enum.Name != env.Name {
 					reflEnum = `(Err "outside the model")`
 				}
 				// direct oracle: the declared enum
@@ -1197,25 +1212,20 @@ func allUnder(paths, prefixes []string) bool {
 	return len(paths) > 0
 }
 
-func optionInfo(e *schema_j5pb.Enum) bool {
-	for _, o := range e.Options {
-		if len(o.Info) != 0 {
-			return true
-		}
-	}
-	return false
-}
 
 // expectedEnum: the schema_j5pb.Enum a declaration denotes (mirrors norm_enum)
 func expectedEnum(env EnumEnv) *schema_j5pb.Enum {
 	out := &schema_j5pb.Enum{Name: env.Name, Description: env.Desc, Prefix: env.Prefix}
-	out.Options = append(out.Options, &schema_j5pb.Enum_Option{Name: "UNSPECIFIED", Number: 0, Description: env.UnspecDesc})
+	for _, f := range env.InfoFields {
+		out.Info = append(out.Info, &schema_j5pb.Enum_OptionInfoField{Name: f[0], Label: f[1], Description: f[2]})
+	}
+	out.Options = append(out.Options, &schema_j5pb.Enum_Option{Name: "UNSPECIFIED", Number: 0, Description: env.UnspecDesc, Info: env.UnspecInfo})
 	for i, o := range env.Options {
 		d := ""
 		if i < len(env.OptDescs) {
 			d = env.OptDescs[i]
 		}
-		out.Options = append(out.Options, &schema_j5pb.Enum_Option{Name: strings.TrimPrefix(o, env.Prefix), Number: int32(i + 1), Description: d})
+		out.Options = append(out.Options, &schema_j5pb.Enum_Option{Name: strings.TrimPrefix(o, env.Prefix), Number: int32(i + 1), Description: d, Info: env.optInfo(i)})
 	}
 	return out
 }
